@@ -163,6 +163,8 @@ class ConcurrentExecutor(ABC, Generic[CallableType, ResultType]):
         # Event-driven state tracking for when the executor is done
         self._completion_event = threading.Event()
         self._suspend_exception: SuspendExecution | None = None
+        # BaseException (e.g. BackgroundThreadError) raised by a branch: re-raised by execute()
+        self._fatal_exception: BaseException | None = None
 
         # ExecutionCounters will keep track of completion criteria and on-going counters
         min_successful = self.completion_config.min_successful or len(self.executables)
@@ -203,6 +205,7 @@ class ConcurrentExecutor(ABC, Generic[CallableType, ResultType]):
         ]
         self._completion_event.clear()
         self._suspend_exception = None
+        self._fatal_exception = None
 
         if not self.executables_with_state:
             # nothing to run: no task would ever signal completion (and a pool needs max_workers > 0)
@@ -239,6 +242,10 @@ class ConcurrentExecutor(ABC, Generic[CallableType, ResultType]):
 
                 # Wait for completion
                 self._completion_event.wait()
+
+                # A branch was interrupted by a fatal error (checkpointing failed): stop and propagate it
+                if self._fatal_exception is not None:
+                    raise self._fatal_exception
 
                 # Cancel futures that haven't started yet
                 for future in futures:
@@ -329,6 +336,13 @@ class ConcurrentExecutor(ABC, Generic[CallableType, ResultType]):
         except Exception as e:  # noqa: BLE001
             exe_state.fail(e)
             self.counters.fail_task()
+        except BaseException as e:  # noqa: BLE001
+            # Not a branch failure but a fatal condition such as BackgroundThreadError (checkpointing
+            # failed). Raising here would only kill this worker thread and leave execute() waiting
+            # forever: hand the error to execute() and wake it.
+            self._fatal_exception = e
+            self._completion_event.set()
+            return
 
         # Check if execution should complete or suspend
         if self.counters.should_complete():
